@@ -27,8 +27,15 @@
    C18_late_observation_sound shows that the judgement used on measured start instants cannot
    fail because of the delay between a start and its observation; C18_grants_monotone is the
    reason why the implementation's k-th start may be compared one-sidedly (never earlier) with
-   the model's, whose requests happen at the earliest possible instants. *)
-From Verif Require Import Common C18_Model C18_Spec C18_Proofs C18_Shared.
+   the model's, whose requests happen at the earliest possible instants.
+
+   Hooks of every shape (theorems C18_limiter_..., C18_shape_..., C18_startup_..., C18_after_idle_...,
+   at the end): a hook configuration is its bindings (any number of kubernetes bindings, grouped
+   or not, executed on Synchronization or not, schedule bindings, queues, onStartup) AND its
+   settings; CreateRateLimiter is handed the whole of it and uses the settings only.  The bound
+   is proved with the CONFIGURED burst for every list of such hooks and every script - the
+   Synchronization runs of the start-up (Boot) and single events after idle periods included. *)
+From Verif Require Import Common C18_Model C18_Spec C18_Proofs C18_Shared C18_ShapeProofs.
 Open Scope Z_scope.
 
 (* any j-i+1 consecutive grants span at least (j-i+1-B) intervals *)
@@ -425,4 +432,141 @@ Example C18_charged_at_queueing_rejected :
   P_timed_for hs [(0, [1%N; 2%N; 3%N])] (sr_all bad) = true /\
   P_op hs (sr_all good) (sr_throttled good) = true /\
   P_timed_for hs [(0, [1%N; 2%N; 3%N]); (450, [1%N; 2%N; 3%N])] (sr_all good) = true.
+Proof. cbv zeta. repeat split; vm_compute; reflexivity. Qed.
+
+(* ---- hooks of every shape: the B of the bound is the configured executionBurst ---- *)
+
+(* CreateRateLimiter is handed the whole hook configuration and uses the settings only: two
+   hooks with the same settings - whatever kubernetes / schedule bindings, groups, queues,
+   executeHookOnSynchronization flags they declare - get the same limiter *)
+Theorem C18_limiter_depends_on_settings_only : forall hc hc',
+  hc_settings hc = hc_settings hc' -> create_rate_limiter_hc hc = create_rate_limiter_hc hc'.
+Proof. exact limiter_of_settings_only. Qed.
+Print Assumptions C18_limiter_depends_on_settings_only.
+
+(* its capacity is the configured executionBurst and it starts with exactly that many tokens,
+   one more every executionMinInterval - for a hook of any shape *)
+Theorem C18_limiter_capacity_is_configured_burst : forall shape I B, 0 < I -> 1 <= B ->
+  let b := create_rate_limiter_hc (mkHC shape (Some (mkSettings I B))) in
+  b_limit b = Some I /\ b_burst b = B /\ b_tokens b = B * I /\ b_last b = None.
+Proof. exact limiter_capacity. Qed.
+Print Assumptions C18_limiter_capacity_is_configured_burst.
+
+(* the limiters the operator works with: for every list of loaded hooks and every hook, the
+   limiter made from the settings that hook was configured with; changing the shapes of the
+   hooks (not their settings) changes no limiter *)
+Theorem C18_shape_limiters_from_settings : forall hcs h,
+  load_limiters hcs h = create_rate_limiter (settings_of (configured_settings hcs) h).
+Proof. exact load_limiters_settings. Qed.
+Print Assumptions C18_shape_limiters_from_settings.
+
+Theorem C18_shape_irrelevant_for_limiters : forall hcs hcs' h,
+  configured_settings hcs = configured_settings hcs' -> load_limiters hcs h = load_limiters hcs' h.
+Proof. exact load_limiters_shape_irrelevant. Qed.
+Print Assumptions C18_shape_irrelevant_for_limiters.
+
+(* the operator with hooks of any shapes, any script (Boot with its Synchronization runs - one
+   per kubernetes binding, one per group, exempt bindings skipped after the limiter call -,
+   idle periods, single events, failures and retries): every execution start of a hook is a
+   grant of the limiter made from ITS SETTINGS over its sorted request instants *)
+Theorem C18_shape_starts_are_grants : forall hcs script h,
+  sortedb (map fst script) = true ->
+  let log := shape_log hcs script in
+  sortedb (reqs_of h log) = true /\
+  acts_of h log = grants (create_rate_limiter (settings_of (configured_settings hcs) h)) (reqs_of h log) /\
+  Sub (starts_in h log) (somes (acts_of h log)).
+Proof. exact shape_starts_are_grants. Qed.
+Print Assumptions C18_shape_starts_are_grants.
+
+(* hence the property's bound with the CONFIGURED (I, B), whatever else the hook declares *)
+Theorem C18_shape_respects_limit : forall hcs script h I B,
+  settings_of (configured_settings hcs) h = Some (mkSettings I B) -> 0 < I -> 1 <= B ->
+  sortedb (map fst script) = true ->
+  respects_limit I B (starts_in h (shape_log hcs script)).
+Proof. exact shape_respects_limit. Qed.
+Print Assumptions C18_shape_respects_limit.
+
+(* the start-up: the operator is started at t0 (Boot), anything may follow; the window that
+   begins at t0 - the Synchronization runs back to back - holds at most B + T/I (rounded up)
+   starts of the hook's executions, however many kubernetes bindings the hook has *)
+Theorem C18_startup_sync_runs_respect_limit : forall hcs script h I B t0,
+  settings_of (configured_settings hcs) h = Some (mkSettings I B) -> 0 < I -> 1 <= B ->
+  sortedb (t0 :: map fst script) = true ->
+  forall T, 0 <= T ->
+  count_in t0 T (starts_in h (shape_log hcs ((t0, Boot) :: script))) <= B + ceil_div T I.
+Proof. exact startup_window. Qed.
+Print Assumptions C18_startup_sync_runs_respect_limit.
+
+(* idle periods: whatever happened before t - in particular nothing at all, for however long -
+   of the requests that arrive from t on (one by one or all at once) the (B+m)-th is granted no
+   earlier than t + m*I: an idle period of any length buys at most B executions *)
+Theorem C18_after_idle_at_most_burst : forall I B pre post t,
+  0 < I -> 1 <= B -> sortedb (pre ++ post) = true -> Forall (fun x => t <= x) post ->
+  forall k a,
+  nth_error (grants (create_rate_limiter (Some (mkSettings I B))) (pre ++ post)) (length pre + k) = Some (Some a) ->
+  t + (Z.of_nat k + 1 - B) * I <= a.
+Proof. exact after_idle_bound. Qed.
+Print Assumptions C18_after_idle_at_most_burst.
+
+(* the decidable predicates used on the observations of shape cases hold of the model, for
+   every list of hook configurations, every script, every boot instant and every list of anchors *)
+Theorem C18_shape_P_holds : forall hcs script boot anchors,
+  sortedb (map fst script) = true ->
+  P_shape (configured_settings hcs) boot anchors (starts_all (shape_log hcs script)) = true.
+Proof. exact shape_P_holds. Qed.
+Print Assumptions C18_shape_P_holds.
+
+Theorem C18_shape_P_op_holds : forall hcs script,
+  sortedb (map fst script) = true ->
+  let log := shape_log hcs script in
+  P_op (configured_settings hcs) (starts_all log) (throttled_in log) = true.
+Proof. exact shape_P_op_holds. Qed.
+Print Assumptions C18_shape_P_op_holds.
+
+(* non-vacuity (instants in ms).  Hook 1: I = 100, B = 1, FIVE kubernetes bindings - 1 (events in
+   queue 1) and 2 ungrouped, 3 and 4 in group 1, 5 with executeHookOnSynchronization: false - and a
+   schedule binding in queue 2.  Its start-up needs three Synchronization executions (1, 2, and one
+   for the group) and a fourth limiter call for the exempt binding.  Boot at 0, every execution
+   ends the moment it starts: the runs start at 0, 100, 200 (not three at once), the exempt
+   binding's call is granted at 300.  Then nothing happens for 700 ms - seven intervals - and
+   three single events arrive at 1000, 1001, 1102: one execution at once, the others at 1100 and
+   1200 (not three at once: the idle period bought one token, not seven).  The hypotheses of the
+   theorems above are met; the same hook with no kubernetes binding at all has the same limiter. *)
+Example C18_shape_hyp_met :
+  let h1 := mkHook 1 false None
+              [mkKb 1 1 0 false true 1; mkKb 2 0 0 false true 2; mkKb 3 0 1 false true 3;
+               mkKb 4 0 1 false true 4; mkKb 5 0 0 false false 5] [mkSb 6 2 0 false 1] in
+  let hcs := [mkHC h1 (Some (mkSettings 100 1))] in
+  let script := [(0, Boot); (0, Finish 0 true); (100, Idle); (100, Finish 0 true); (200, Idle);
+                 (200, Finish 0 true); (300, Idle);
+                 (1000, KubeEv 1 1); (1000, Finish 1 true); (1001, KubeEv 2 2); (1100, Idle);
+                 (1100, Finish 0 true); (1102, Tick 1); (1200, Idle); (1200, Finish 2 true); (1300, Idle)] in
+  let ls := run_shape hcs script in
+  sortedb (map fst script) = true /\
+  settings_of (configured_settings hcs) 1 = Some (mkSettings 100 1) /\
+  sync_runs h1 = 3%nat /\
+  reqs_of 1 (l_log ls) = [0; 0; 100; 200; 1000; 1001; 1102] /\
+  acts_of 1 (l_log ls) = [Some 0; Some 100; Some 200; Some 300; Some 1000; Some 1100; Some 1200] /\
+  starts_all (l_log ls) = [(1%N, 0); (1%N, 100); (1%N, 200); (1%N, 1000); (1%N, 1100); (1%N, 1200)] /\
+  l_waiting ls = [] /\
+  unlocked (l_op ls) = [1%N; 2%N; 3%N; 4%N; 5%N] /\
+  P_shape (configured_settings hcs) 0 [1000; 1001; 1102] (starts_all (l_log ls)) = true /\
+  create_rate_limiter_hc (mkHC h1 (Some (mkSettings 100 1)))
+  = create_rate_limiter_hc (mkHC (mkHook 1 false None [] []) (Some (mkSettings 100 1))).
+Proof. cbv zeta. repeat split; vm_compute; reflexivity. Qed.
+
+(* the predicate is not vacuous, and it reads the CONFIGURED burst: three Synchronization runs
+   seen within 30 ms of the start-up of a hook with B = 1 are rejected - also when the hook has
+   three kubernetes bindings; so are three executions for single events right after an idle
+   period, however long it was; with B = 3 configured both are fine; after_idle: the instance
+   of C18_after_idle_at_most_burst for a bucket that was idle for 10^6 intervals *)
+Example C18_P_shape_rejects :
+  let hs := [(1%N, Some (mkSettings 100 1))] in
+  P_shape hs 0 [] [(1%N, 10); (1%N, 20); (1%N, 30)] = false /\
+  P_shape hs 0 [] [(1%N, 10); (1%N, 20); (1%N, 130)] = true /\
+  P_shape hs 0 [5000] [(1%N, 10); (1%N, 110); (1%N, 5001); (1%N, 5002); (1%N, 5003)] = false /\
+  P_shape hs 0 [5000] [(1%N, 10); (1%N, 110); (1%N, 5001); (1%N, 5002); (1%N, 5103)] = true /\
+  P_shape [(1%N, Some (mkSettings 100 3))] 0 [5000] [(1%N, 10); (1%N, 20); (1%N, 30); (1%N, 5001); (1%N, 5002); (1%N, 5003)] = true /\
+  grants (create_rate_limiter (Some (mkSettings 100 1))) [0; 100000000; 100000000; 100000000]
+  = [Some 0; Some 100000000; Some 100000100; Some 100000200].
 Proof. cbv zeta. repeat split; vm_compute; reflexivity. Qed.
